@@ -109,6 +109,10 @@ def expected_flows(b, spec):
                 add(bus, +1, vn(b, ck, 'BUS', 'SUP_' + good), cur)
             else:
                 add(bus, +1, vn(b, ck, 'GOOD', 'SUP_' + b.sectors[bus].FullCode), cur)
+            if c.get('custom'):
+                g_name = vn(b, ck, 'DONOR', 'GRANT')
+                add((ck, 'DONOR'), -1, g_name, cur)
+                add((ck, 'RECIP'), +1, g_name, cur)
             if c.get('cap'):
                 cap = (ck, 'CAP')
                 add(cap, +1, vn(b, ck, 'CAP', 'DIV'), cur)
